@@ -781,7 +781,9 @@ pub fn run_property(p: &Property, env: &RunEnv, only: Option<&str>) -> i32 {
         }
     }
     if !only_suffix {
-        let dir = format!("{}/evidence", VERIF_DIR);
+        // side runs (seed soaks, background thorough sweeps from a copied binary) write elsewhere so that
+        // the committed evidence stays the registered command's own
+        let dir = std::env::var("WWCHECK_EVIDENCE_DIR").unwrap_or_else(|_| format!("{}/evidence", VERIF_DIR));
         let _ = std::fs::create_dir_all(&dir);
         let path = format!("{}/{}.json", dir, p.id);
         std::fs::write(&path, serde_json::to_string_pretty(&evidence).unwrap())
